@@ -9,7 +9,11 @@
        on an arithmetic integer axis a, a+d, ..., a+d(n-1) with n >= 2 it returns a + d*k at position k.
        Proved for ALL n_il, n_xl >= 2, all starts and increments: word i*n_xl + x of the array stored under 189 is
        ilines[i] and under 193 xlines[x], each array has n_il*n_xl words in inline-major order (C05a_zgy_line_arrays,
-       C05a_zgy_array_length); through the reader model: header field 189 / 193 of trace t reads ilines[t / n_xl] /
+       C05a_zgy_array_length).  ALL OF THIS FOR ANY WINDOW 0 <= min_il < max_il <= n_il, 0 <= min_xl < max_xl <= n_xl (D54 repaired; the
+       crop of get_blank_header_info is generated: zgy_crop_row_lo .. zgy_crop_col_hi): word (i - min_il) * (max_xl - min_xl) + (x - min_xl) under 189 / 193 is
+       ilines[i] / xlines[x] of the SOURCE, the CDP words are the expression at source position (i, x), every array has one word per
+       window trace = hel / 4 of the windowed header (the C05a_zgy_window_ theorems); the whole-file theorems are the instance (0, n_il, 0, n_xl).
+       Through the reader model: header field 189 / 193 of trace t reads ilines[t / n_xl] /
        xlines[t mod n_xl], fields 115 / 117 / 71 the constants (C05a_zgy_lines_readback).  The CDP arrays (181, 185) are the
        generated affine expression of the corners, np.round'ed: C05a_zgy_cdp_arrays / _expressions say which expression lands
        where; their numeric values are binary64 and checked by correspondence only.
@@ -34,6 +38,59 @@ From SZ Require Import Lib.Py Gen.Utils Gen.Version Gen.Reader Gen.Geometry Gen.
 From SZ Require Model.Headers Model.Routes Proofs.Routes Proofs.RoutesAxis.
 Open Scope Z_scope.
 
+(* ---- any window (win_ok w n_il n_xl: 0 <= min_il < max_il <= n_il, 0 <= min_xl < max_xl <= n_xl); (i, x) are SOURCE ordinals ---- *)
+Theorem C05a_zgy_window_line_arrays : forall lin rnd, Model.Routes.lin_exact lin ->
+  forall a_il d_il n_il a_xl d_xl n_xl, 2 <= n_il -> 2 <= n_xl -> forall w, Model.Routes.win_ok w n_il n_xl = true ->
+  forall i x, Model.Routes.wi0 w <= i < Model.Routes.wi1 w -> Model.Routes.wx0 w <= x < Model.Routes.wx1 w ->
+  let p := (i - Model.Routes.wi0 w) * (Model.Routes.wx1 w - Model.Routes.wx0 w) + (x - Model.Routes.wx0 w) in
+  Model.Routes.zgy_warray lin rnd (Model.Routes.arith_lax a_il d_il n_il) (Model.Routes.arith_lax a_xl d_xl n_xl) w 189 p = a_il + d_il * i /\
+  Model.Routes.zgy_warray lin rnd (Model.Routes.arith_lax a_il d_il n_il) (Model.Routes.arith_lax a_xl d_xl n_xl) w 193 p = a_xl + d_xl * x.
+Proof. exact Proofs.Routes.zgy_window_line_arrays. Qed.
+Print Assumptions C05a_zgy_window_line_arrays.
+
+Theorem C05a_zgy_window_cdp_arrays : forall lin rnd a_il d_il n_il a_xl d_xl n_xl w, Model.Routes.win_ok w n_il n_xl = true ->
+  forall i x, Model.Routes.wi0 w <= i < Model.Routes.wi1 w -> Model.Routes.wx0 w <= x < Model.Routes.wx1 w ->
+  let p := (i - Model.Routes.wi0 w) * (Model.Routes.wx1 w - Model.Routes.wx0 w) + (x - Model.Routes.wx0 w) in
+  Model.Routes.zgy_warray lin rnd (Model.Routes.arith_lax a_il d_il n_il) (Model.Routes.arith_lax a_xl d_xl n_xl) w 181 p
+    = rnd (match nth 0 zgy_returns (ZLines true true) with ZRound e => e | _ => RInt 0 end) i x /\
+  Model.Routes.zgy_warray lin rnd (Model.Routes.arith_lax a_il d_il n_il) (Model.Routes.arith_lax a_xl d_xl n_xl) w 185 p
+    = rnd (match nth 1 zgy_returns (ZLines true true) with ZRound e => e | _ => RInt 0 end) i x.
+Proof. exact Proofs.Routes.zgy_window_cdp_arrays. Qed.
+Print Assumptions C05a_zgy_window_cdp_arrays.
+
+(* one word per window trace = hel / 4 of the header the windowed conversion writes *)
+Theorem C05a_zgy_window_array_length : forall a_il d_il n_il a_xl d_xl n_xl w, Model.Routes.win_ok w n_il n_xl = true ->
+  Model.Routes.zgy_warray_words (Model.Routes.arith_lax a_il d_il n_il) (Model.Routes.arith_lax a_xl d_xl n_xl) w
+    = (Model.Routes.wi1 w - Model.Routes.wi0 w) * (Model.Routes.wx1 w - Model.Routes.wx0 w) /\
+  Gen.Headers.hx_hel_3d (Model.Routes.win_nxl w) (Model.Routes.win_nil w)
+    = 4 * Model.Routes.zgy_warray_words (Model.Routes.arith_lax a_il d_il n_il) (Model.Routes.arith_lax a_xl d_xl n_xl) w.
+Proof. exact Proofs.Routes.zgy_window_array_length. Qed.
+Print Assumptions C05a_zgy_window_array_length.
+
+(* through the reader: trace t of the window reports the numbers of its source trace (min_il + t / gnx, min_xl + t mod gnx) *)
+Theorem C05a_zgy_window_lines_readback : forall lin rnd fields tv a_il d_il n_il a_xl d_xl n_xl w ndb la t,
+  Model.Routes.lin_exact lin -> Model.Headers.wf_fields fields = true -> (forall k, In k Proofs.Routes.zgy_keys -> In k fields) ->
+  2 <= n_il -> 2 <= n_xl -> Model.Routes.win_ok w n_il n_xl = true ->
+  0 <= t < (Model.Routes.wi1 w - Model.Routes.wi0 w) * (Model.Routes.wx1 w - Model.Routes.wx0 w) ->
+  let arr := Model.Routes.zgy_warray lin rnd (Model.Routes.arith_lax a_il d_il n_il) (Model.Routes.arith_lax a_xl d_xl n_xl) w in
+  let F := Model.Routes.zgy_wwrite fields tv arr n_il n_xl w ndb in
+  let gnx := Model.Routes.wx1 w - Model.Routes.wx0 w in
+  Model.Headers.read_field fields F la t 189 = Return (a_il + d_il * (Model.Routes.wi0 w + t / gnx)) /\
+  Model.Headers.read_field fields F la t 193 = Return (a_xl + d_xl * (Model.Routes.wx0 w + t mod gnx)) /\
+  Model.Headers.read_field fields F la t 115 = Return (tv TVNSamples) /\
+  Model.Headers.read_field fields F la t 117 = Return (tv (TVTrunc (RMul (RInt 1000) RZinc))) /\
+  Model.Headers.read_field fields F la t 71 = Return (tv (TVConst (-100))).
+Proof. exact Proofs.Routes.zgy_window_lines_readback. Qed.
+Print Assumptions C05a_zgy_window_lines_readback.
+
+(* the crop as it stands in get_blank_header_info: rows geom.ilines[0] .. geom.ilines[-1], columns geom.xlines[0] .. geom.xlines[-1] *)
+Theorem C05a_zgy_crop_now : forall gi0 gil gx0 gxl,
+  zgy_crop_filetype = ft_ZGY /\ zgy_crop_row_lo gi0 gil gx0 gxl = gi0 /\ zgy_crop_row_hi gi0 gil gx0 gxl = gil + 1 /\
+  zgy_crop_col_lo gi0 gil gx0 gxl = gx0 /\ zgy_crop_col_hi gi0 gil gx0 gxl = gxl + 1.
+Proof. intros. repeat split. Qed.
+Print Assumptions C05a_zgy_crop_now.
+
+(* ---- conversion without a window: the instance (0, n_il, 0, n_xl) ---- *)
 Theorem C05a_zgy_line_arrays : forall lin rnd, Model.Routes.lin_exact lin ->
   forall a_il d_il n_il a_xl d_xl n_xl, 2 <= n_il -> 2 <= n_xl -> forall i x, 0 <= i < n_il -> 0 <= x < n_xl ->
   Model.Routes.zgy_array lin rnd (Model.Routes.arith_lax a_il d_il n_il) (Model.Routes.arith_lax a_xl d_xl n_xl) 189 (i * n_xl + x)
@@ -43,12 +100,12 @@ Theorem C05a_zgy_line_arrays : forall lin rnd, Model.Routes.lin_exact lin ->
 Proof. exact Proofs.Routes.zgy_line_arrays. Qed.
 Print Assumptions C05a_zgy_line_arrays.
 
-Theorem C05a_zgy_array_length : forall a_il d_il n_il a_xl d_xl n_xl,
+Theorem C05a_zgy_array_length : forall a_il d_il n_il a_xl d_xl n_xl, 2 <= n_il -> 2 <= n_xl ->
   Model.Routes.zgy_array_words (Model.Routes.arith_lax a_il d_il n_il) (Model.Routes.arith_lax a_xl d_xl n_xl) = n_il * n_xl.
 Proof. exact Proofs.Routes.zgy_array_length. Qed.
 Print Assumptions C05a_zgy_array_length.
 
-Theorem C05a_zgy_cdp_arrays : forall lin rnd a_il d_il n_il a_xl d_xl n_xl i x, 0 <= i < n_il -> 0 <= x < n_xl ->
+Theorem C05a_zgy_cdp_arrays : forall lin rnd a_il d_il n_il a_xl d_xl n_xl, 2 <= n_il -> 2 <= n_xl -> forall i x, 0 <= i < n_il -> 0 <= x < n_xl ->
   Model.Routes.zgy_array lin rnd (Model.Routes.arith_lax a_il d_il n_il) (Model.Routes.arith_lax a_xl d_xl n_xl) 181 (i * n_xl + x)
     = rnd (match nth 0 zgy_returns (ZLines true true) with ZRound e => e | _ => RInt 0 end) i x /\
   Model.Routes.zgy_array lin rnd (Model.Routes.arith_lax a_il d_il n_il) (Model.Routes.arith_lax a_xl d_xl n_xl) 185 (i * n_xl + x)
@@ -147,16 +204,17 @@ Qed.
 Print Assumptions C05a_route_line_axes.
 
 (* a header converted from a ZGY with 7 samples from -12.5 at interval 2.5 regenerates -12.5, -10, ..., 2.5 bit for bit;
-   an exact `lin` exists; segyio's fields are a valid table *)
+   an exact `lin` exists; (1, 4, 0, 3) is a window of a 5 x 5 source; segyio's fields are a valid table *)
 Example C05a_nonvacuous :
   Proofs.RoutesAxis.reads_route Proofs.RoutesAxis.nv_zgy_env ft_ZGY Proofs.RoutesAxis.nv_src /\
   PrimFloat.eqb (PrimFloat.mul (Model.Routes.re_zinc Proofs.RoutesAxis.nv_src) (f_of_Z 1000)) f_zero = false /\
   match rd_axis Proofs.RoutesAxis.nv_zgy_env rd_axis_zslices with
   | Return r => list_same r Proofs.RoutesAxis.nv_axis_expected | Raise _ => false end = true /\
   Model.Routes.lin_exact (fun a b n k => a + ((b - a) / (n - 1)) * k) /\
+  Model.Routes.win_ok {| Model.Routes.wi0 := 1; Model.Routes.wi1 := 4; Model.Routes.wx0 := 0; Model.Routes.wx1 := 3 |} 5 5 = true /\
   Model.Headers.wf_fields Model.Headers.segy_fields = true.
 Proof.
   destruct Proofs.RoutesAxis.zgy_axis_nonvacuous as (A & B & C). split; [exact A|]. split; [exact B|]. split; [exact C|].
-  split; [| exact (proj1 Proofs.Routes.segy_fields_ok)].
+  split; [| split; [reflexivity | exact (proj1 Proofs.Routes.segy_fields_ok)]].
   intros a d n k Hn Hk. replace (a + d * (n - 1) - a) with (d * (n - 1)) by ring. rewrite Z.div_mul by lia. reflexivity.
 Qed.
